@@ -6,6 +6,7 @@
 #include <csignal>
 #include <cstdio>
 #include <cstdlib>
+#include <cstring>
 #include <fstream>
 #include <iostream>
 #include <map>
@@ -478,7 +479,16 @@ static Ctx& ctx_for(int T);
 static const TableDump& cx_dump_for_rich(const Gram& g) { return ctx_for(g.T).dump; }
 static Ctx& ctx_for(int T) {
     auto it = ctxs.find(T);
-    if (it == ctxs.end()) { Ctx& c = ctxs[T]; c.sp.init(T, cfg.maxlen); c.deep.init(T, cfg.deeplen > cfg.maxlen ? (T >= 3 ? std::min(cfg.deeplen, cfg.maxlen + 2) : cfg.deeplen) : cfg.maxlen); return c; }
+    if (it == ctxs.end()) {
+        Ctx& c = ctxs[T];
+        // Lang needs the count^2 concatenation table: keep the main space below ~1500 strings (T=4: length <= 4 ... the length bound is lowered, never the alphabet)
+        int n = cfg.maxlen; auto count_for = [&](int len) { long cnt = 0, pw = 1; for (int l = 0; l <= len; ++l) { cnt += pw; pw *= T; } return cnt; };
+        while (n > 1 && count_for(n) > 1500) --n;
+        c.sp.init(T, n);
+        int dn = std::max(n, cfg.deeplen); while (dn > n && count_for(dn) > 4000) --dn;   // the widened search after a table mismatch: no table needed, still bounded
+        c.deep.init(T, dn, false);
+        return c;
+    }
     return it->second;
 }
 
@@ -951,8 +961,8 @@ int main(int argc, char** argv) {
         else { std::fprintf(stderr, "unknown argument %s\n", a.c_str()); return 2; }
     }
     std::signal(SIGSEGV, crash_handler); std::signal(SIGABRT, crash_handler); std::signal(SIGBUS, crash_handler); std::signal(SIGFPE, crash_handler);
-    // watchdog: every real call is expected to return within milliseconds; a case that makes no progress for 20 s is a hang of the real code
-    std::thread([] { unsigned long last = g_heartbeat; int idle = 0; while (true) { sleep(1); unsigned long now = g_heartbeat; if (now == last && cur_frame) { if (++idle >= 20) crash_handler(0); } else { idle = 0; last = now; } } }).detach();
+    // watchdog: every real call is expected to return within milliseconds; a case that makes no progress for 30 s while the real code is being driven is a hang of the real code (harness-only phases are exempt)
+    std::thread([] { unsigned long last = g_heartbeat; int idle = 0; while (true) { sleep(1); unsigned long now = g_heartbeat; if (now == last && cur_frame && std::strcmp(cur_phase, "analysis") != 0) { if (++idle >= 30) crash_handler(0); } else { idle = 0; last = now; } } }).detach();
 
     auto find_frame = [&](const Gram& g) -> FrameBase* {
         for (auto* f : registry()) {
